@@ -47,6 +47,10 @@ def generate(rng, tier):
                     qs[0], qs[1] = qs[1], qs[0]
                 if rng.random() < 0.3:
                     qs[0], qs[3] = qs[3], qs[0]     # the first element is fine, the rejected ones come later
+                if S == "F" and rng.random() < 0.35:
+                    # NaN is the only rejected element (seed C19-r5m2: a fast path that lets NaN query points through as NaN results)
+                    qs = [rng.uniform(xs[0], xs[-1]) for _ in range(4)]
+                    qs[rng.randrange(4)] = float("nan")
             for qtag in ("sta", "dyn"):
                 for ent in ("array", "ainto"):
                     e = e_array(S, [len(qs)], qs, qtag=qtag, lay=ql) if ent == "array" else e_ainto(S, [len(qs)], [len(qs)] + shape[1:], qs, qtag=qtag, lay=ql, blay="w")
@@ -76,6 +80,9 @@ def generate(rng, tier):
                         qx[2] = rng.choice([float("nan"), float("inf")])
                 if rng.random() < 0.4:
                     qx[0], qx[1] = qx[1], qx[0]; qy[0], qy[1] = qy[1], qy[0]   # a good first element, rejected ones later
+                if S == "F" and rng.random() < 0.35:
+                    qx = [rng.uniform(xs[0], xs[-1]) for _ in qx]; qy = [rng.uniform(ys[0], ys[-1]) for _ in qy]
+                    (qx if rng.random() < 0.5 else qy)[rng.randrange(len(qx))] = float("nan")      # NaN is the only rejected element
             for qtag in ("sta", "dyn"):
                 cases.append({"line": i2_line(S, xs, ys, shape, flat, False, e_array(S, [len(qx)], qx, qy, qtag=qtag, lay=ql),
                                               dtag=rng.choice(["sta", "dyn"])), "meta": {"oob": oob}})
